@@ -35,6 +35,7 @@ M = [
  ("C07", "name-vec-unsorted", "ir/src/name_generator.rs", "name_to_symbol_vec.sort_by(|l, r| String::cmp(l.0, r.0));", "", ["C07.hash/build/from_iter", "C07.sort-key/build/name_to_symbol_vec"]),
  ("C08", "macro-disable-removed", "preprocess/src/preprocess.rs", "            macro_disabled[macro_index] = true;\n", "", ["C08.macro/disable-bracket"]),
  ("C08", "evaluator-unchecked-add", "typer/src/evaluator.rs", "ir::Constant::UInt32(input) => ir::Constant::UInt32(!input),", "ir::Constant::UInt32(input) => ir::Constant::UInt32(!input + 1),", ["C08.arith/rssl_typer/evaluate_operator/Overflow(Add)#0"]),
+ ("C08", "entry-point-without-body-unwrapped", "typer/src/typer/pipelines.rs", "        Some(function_impl) => function_impl,\n        // The entry point is declared but never defined\n        None => return Err(TyperError::PipelineEntryPointFunctionUnknown(location)),\n    };", "        Some(function_impl) => function_impl,\n        None => panic!(\"entry point without a body\"),\n    };", ["C08.pipeline/entry-without-body"]),
  ("C09", "multiply-precedence", "formatter/src/formatter.rs", "                Multiply => 5,", "                Multiply => 6,", []),
  ("C09", "shift-spelling", "formatter/src/formatter.rs", '        RightShift => ">>",', '        RightShift => ">",', ["C09.optext/Binary::RightShift"]),
  ("C09", "assoc-assignment-left-to-right", "formatter/src/formatter.rs", "        16 => Associativity::RightToLeft,", "        16 => Associativity::LeftToRight,", []),
